@@ -10,6 +10,10 @@ pub const NSYM: u8 = 8;
 pub trait Tok: Clone + PartialEq + Debug + 'static + Send + Sync + chumsky::text::Char {
     fn from_sym(s: u8) -> Self;
     fn to_sym(&self) -> u8;
+    /// The container handed to `one_of` / `none_of`: a `Vec` for bytes, an owned `String` for
+    /// characters (`Seq<char> for String`: heap storage that lives and dies with the grammar value).
+    type Set: for<'p> chumsky::container::Seq<'p, Self> + Clone + Send + Sync + 'static;
+    fn mk_set(syms: &[u8]) -> Self::Set;
 }
 
 /// Symbols 0..8 are the abstract alphabet of the generated grammars; 8..16 are only used by cases with
@@ -26,6 +30,10 @@ impl Tok for u8 {
     }
     fn to_sym(&self) -> u8 {
         BYTES.iter().position(|c| c == self).map(|p| p as u8).unwrap_or(255)
+    }
+    type Set = Vec<u8>;
+    fn mk_set(syms: &[u8]) -> Vec<u8> {
+        syms.iter().map(|s| u8::from_sym(*s)).collect()
     }
 }
 
@@ -64,6 +72,10 @@ impl Tok for char {
         } else {
             CHARS.iter().position(|c| c == self).map(|p| p as u8).unwrap_or(255)
         }
+    }
+    type Set = String;
+    fn mk_set(syms: &[u8]) -> String {
+        syms.iter().map(|s| char::from_sym(*s)).collect()
     }
 }
 
